@@ -233,4 +233,20 @@ CHECKS = {
         "level_text": "Seeded exploration of histories x filter trees with an exhaustive leaf catalogue rotated through the runs; each selection judged exactly against an independent reference implementation.",
         "level_note": "trusted base: the harness's reference matcher (Rust f64 parse for 'numeric'), the reference map",
     },
+    "C19": {
+        "level": "exploration",
+        "design_ref": "DESIGN.md section 5/C19",
+        "engine": "E1 clock + E2 simsched",
+        "technique": "deterministic simulation: arrivals as events on the simulated clock, caller threads interleaved at the bucket mutexes by the seeded scheduler; window bounds, refund and fairness checked over the recorded history",
+        "rule": "programs = (tenant rates from {1,2,3,10,100,1000}/s x 1-3 tenants, optional global rate from {1,2,5,20,150,2000}/s, 1-3 caller threads x 3-30 calls (3-60 thorough), arrival pattern per thread: burst, exact 1/rate spacing +-1 ns / +2 us, "
+                "long idles up to 1 h, one tenant hammering, uniform in [0, 2/rate]); 6 seeded schedules per program. For every window of admitted calls of a tenant (and of all tenants for the global bucket), with times taken on the simulated clock "
+                "before the first and after the last call: count <= burst + rate x dt + 1e-6. Single-caller programs additionally: a call refused while the tenant had >= 1 token (so refused by the global bucket) leaves available_tokens(tenant) "
+                "not lower than before; a call refused although conservative lower bounds on both the tenant's and the global bucket's tokens are >= 1 is a violation. evaluations = programs x schedules judged. "
+                "distinct_nontrivial = distinct (decision trace, admitted count) among runs with both admitted and refused calls.",
+        "assumptions": ["the server's enforce_rate_limit wrapper is not driven here", "fairness/refund clauses are only evaluated where attribution is exact (one caller thread)"],
+        "expected_probes": ["global_refusal_with_tenant_tokens_available", "multi_thread_runs"],
+        "tiers": {"quick": {"runs_per_worker": 1000000, "budget_s": 25}, "thorough": {"runs_per_worker": 10000000, "budget_s": 600}},
+        "level_text": "Seeded exploration of (rates, tenants, threads, arrival patterns) x schedules on a simulated clock; all windows of each recorded history are checked against the token-bucket bound, plus refund and fairness where attribution is exact.",
+        "level_note": "trusted base: simulated clock (monotone, 1 us per read), bracketing of call times, conservative reference lower bounds",
+    },
 }
